@@ -35,20 +35,30 @@ def faninOf (c : Circuit) (ns : List Name) : Except Outcome (List Name) :=
 def fanoutOf (c : Circuit) (ns : List Name) : Except Outcome (List Name) :=
   if ns.any (fun n => !c.has n) then .error .nxError else .ok (unionAll (ns.map c.fanout))
 
-/-- `c.startpoints(ns)`: empty / None argument = all startpoints -/
+/-- `c.startpoints(ns)` for an argument that is not None (after the K52 repair an empty collection selects nothing;
+    `startpointsOpt` below is the whole method, `None` = all startpoints) -/
 def startpoints (c : Circuit) (ns : List Name) : Except Outcome (List Name) :=
   if c.nodes.any (fun p => p.2.ty.isNone) then .error .keyError else
-  if ns.isEmpty then .ok c.startpointsAll else
   match transitiveFanin c ns with
   | .error e => .error e
   | .ok tfi => .ok ((dedup (ns ++ tfi)).filter c.startpointsAll.contains)
 
 def endpoints (c : Circuit) (ns : List Name) : Except Outcome (List Name) :=
   if c.nodes.any (fun p => p.2.ty.isNone) then .error .keyError else
-  if ns.isEmpty then .ok c.endpointsAll else
   match transitiveFanout c ns with
   | .error e => .error e
   | .ok tfo => .ok ((dedup (ns ++ tfo)).filter c.endpointsAll.contains)
+
+/-- `c.startpoints(ns=None)` / `c.endpoints(ns=None)`: only `None` selects everything -/
+def startpointsOpt (c : Circuit) (ns? : Option (List Name)) : Except Outcome (List Name) :=
+  match ns? with
+  | some ns => startpoints c ns
+  | none => if c.nodes.any (fun p => p.2.ty.isNone) then .error .keyError else .ok c.startpointsAll
+
+def endpointsOpt (c : Circuit) (ns? : Option (List Name)) : Except Outcome (List Name) :=
+  match ns? with
+  | some ns => endpoints c ns
+  | none => if c.nodes.any (fun p => p.2.ty.isNone) then .error .keyError else .ok c.endpointsAll
 
 /-- Kahn's algorithm: repeatedly take the first remaining node without remaining predecessors -/
 def kahn (c : Circuit) : Nat → List Name → List Name → Option (List Name)
